@@ -201,6 +201,8 @@ pub enum Mac {
     Stop,
     /// SELFDESTRUCT with an empty stack
     SdBare,
+    /// LOG1 with an empty stack
+    LogBare,
 }
 
 impl Mac {
@@ -217,7 +219,7 @@ impl Mac {
     }
     /// true if execution cannot continue past this macro
     pub fn terminal(&self) -> bool {
-        matches!(self, Mac::SelfDestruct(_) | Mac::SelfDestructSelf | Mac::Return(_) | Mac::Revert(_) | Mac::Invalid | Mac::Stop | Mac::SdBare)
+        matches!(self, Mac::SelfDestruct(_) | Mac::SelfDestructSelf | Mac::Return(_) | Mac::Revert(_) | Mac::Invalid | Mac::Stop | Mac::SdBare | Mac::LogBare)
     }
     pub fn emit(&self, a: Asm) -> Asm {
         match *self {
@@ -255,6 +257,7 @@ impl Mac {
             Mac::Invalid => a.op(op::INVALID),
             Mac::Stop => a.op(op::STOP),
             Mac::SdBare => a.op(op::SELFDESTRUCT),
+            Mac::LogBare => a.op(op::LOG0 + 1),
         }
     }
 }
